@@ -813,7 +813,8 @@ Unwind ==
                                   IF CGlob(ctl[Len(ctl) - 1].i) \in DOMAIN cells
                                   THEN WithGlobals(envs[Top - 1], cells[CGlob(ctl[Len(ctl) - 1].i)].g) ELSE envs[Top - 1]]
                   /\ mx' = [mx EXCEPT !.senv = SubSeq(mx.senv, 1, Len(mx.senv) - 1)]
-                  /\ exc' = IF F.kind = "fill" THEN exc
+                  \* (a macro rendered in place -- its define-macro element stands in the flow -- has no call site)
+                  /\ exc' = IF F.kind = "fill" \/ ctl[Len(ctl) - 1].st # "use" THEN exc
                             ELSE [exc EXCEPT !.sites = Append(exc.sites, Site(ctl[Len(ctl) - 1].i, "use", 0))]
              ELSE /\ envs' = [envs EXCEPT ![Top] = LayerAfterUnwind(F)]
                   /\ UNCHANGED <<mx, exc>>
